@@ -1,7 +1,7 @@
-import NeverModel.Model.Own
+import NeverModel.Model.OwnSem
 /-! Diagnosis script of checks/c16.py (not part of the library): when a table theorem of Props/C16.lean no longer checks,
 this prints WHICH rows of the regenerated table fail WHICH Boolean check of Model/Own.lean, one `FAIL` line each. -/
-open Never.Gen.OwnTab Never.Own
+open Never.Gen.OwnTab Never.Own Never.OwnSem
 
 def tagName (t : Nat) : String := if t == 0 then "-" else tagNames.getD t "?"
 def fnName (g : Nat) : String := fnNames.getD g "?"
@@ -34,6 +34,10 @@ def main : IO Unit := do
           for i in c.inits do
             if isFresh i.src && (if c.tags.isEmpty then [0] else c.tags).any (isBorrowed i.field) then
               IO.println s!"FAIL fresh_allocations_go_to_released_fields | {c.name} | {i.arg}: a fresh allocation is stored into a borrowed member"
+      if !edgesMatchOk d then
+        for tag in tagsOf d do
+          if inScope d tag && !List.isPerm ((relEdges d tag).filter fun e => heldOff d tag e.off) (ownedEdges d tag) then
+            IO.println s!"FAIL table_edges_match | {d.name} | tag {tagName tag} | released (offset, type, link): {((relEdges d tag).filter fun e => heldOff d tag e.off).map fun e => (e.off, typeNames.getD e.ty "?", e.link)} owned: {(ownedEdges d tag).map fun e => (e.off, typeNames.getD e.ty "?", e.link)}"
       if !unguardedOk d then
         IO.println s!"FAIL unguarded_releases_never_null | {d.name} | an unguarded delete of a member that a constructor sets to NULL"
   for l in lates do
